@@ -345,6 +345,18 @@ Theorem C15_tractogram_apply_affine_sliced : forall st c f dt, reachable st -> i
 Proof. exact inplace_cells. Qed.
 Print Assumptions C15_tractogram_apply_affine_sliced.
 
+(* extend(good ++ [an element with another trailing shape] ++ more) (fix 4004448f: the loop runs in
+   try/finally with finalize_append()): an error is reported, the sequence keeps exactly the good
+   elements — and stays usable: the state is a reachable one without a pending build — and, by
+   C15_grow_isolated (OExtendBad is a growth operation), no other object changes *)
+Theorem C15_own_contents_extend_refused : forall st i bpr pre good extra, reachable st ->
+  is_live st i = true -> scache (getseq st i) = None ->
+  let st' := fst (step st (OExtendBad i bpr pre good extra)) in
+  (exists e, snd (step st (OExtendBad i bpr pre good extra)) = RErr e) /\
+  C st' i = spec_extend (C st i) good /\ scache (getseq st i) = None.
+Proof. exact own_extend_bad. Qed.
+Print Assumptions C15_own_contents_extend_refused.
+
 (* ---- the four further operations: refused append, shrink_data(), seq[idx, cols], concatenate(axis=1) *)
 Theorem C15_append_refused_nothing : forall st i, fst (step st (OAppendBad i)) = st /\
   exists e, snd (step st (OAppendBad i)) = RErr e.
